@@ -51,7 +51,7 @@ def configs():
 
     def text(ana, **kw):
         return fields.TEXT(analyzer=ana, phrase=kw.pop("phrase", True), chars=True, stored=True)
-    P = {"positional": True, "offsets": True, "highlight": True, "words": True}
+    P = {"positional": True, "offsets": True, "highlight": True, "words": True, "quoted": True}
     NP = {"positional": False, "offsets": False, "highlight": False}
     out = {
         "standard": (text(analysis.StandardAnalyzer()), P),
@@ -71,12 +71,16 @@ def configs():
         "ngramwords": (fields.NGRAMWORDS(minsize=2, maxsize=4, stored=True), dict(NP, highlight=True, grams=True)),
         "ngramwords-start": (fields.NGRAMWORDS(minsize=2, maxsize=4, stored=True, at="start"),
                              dict(NP, highlight=True, grams=True)),
+        "ngramwords-end": (fields.NGRAMWORDS(minsize=2, maxsize=4, stored=True, at="end"),
+                           dict(NP, highlight=True, grams=True)),
+        "ngramfilter-end": (text(RegexTokenizer() | LowercaseFilter() | NgramFilter(2, 4, at="end")),
+                            dict(NP, highlight=True, grams=True)),
         "accent-folding": (text(RegexTokenizer() | LowercaseFilter() | CharsetFilter(accent_map)), P),
         "intraword": (text(RegexTokenizer(r"\S+") | IntraWordFilter() | LowercaseFilter()), NP),
         "intraword-documented": (text(RegexTokenizer(r"\S+")
                                       | MultiFilter(index=IntraWordFilter(mergewords=True, mergenums=True),
                                                     query=IntraWordFilter(mergewords=False, mergenums=False))
-                                      | LowercaseFilter()), NP),
+                                      | LowercaseFilter()), dict(NP, quoted="always")),
         "biword": (text(RegexTokenizer() | LowercaseFilter() | BiWordFilter(), phrase=False), NP),
         "shingle": (text(RegexTokenizer() | LowercaseFilter() | ShingleFilter(2), phrase=False), NP),
         "metaphone-combined": (text(RegexTokenizer() | LowercaseFilter() | DoubleMetaphoneFilter(combine=True)), NP),
@@ -150,6 +154,8 @@ def _build_case(run, rng, name, field, flags, ndocs, schema, storage):
                 texts[k] += rng.choice([u", ,zz", u",,", u", "])
             if name in ("regex-gaps", "keyword", "space+strip+subst") and rng.random() < 0.5:   # markup-like tokens
                 texts[k] += rng.choice([u" a<b", u" x&lt;y", u" <i>tag</i> Q&A"])
+            if name.startswith("intraword") and rng.random() < 0.7:  # words the filter splits / merges, followed by more words
+                texts[k] += rng.choice([u" PowerShot camera lens", u" wi-fi router SD500 manual", u" fooBar baz R2D2 unit"])
             if name == "stemming-ignore" and rng.random() < 0.6:     # words on the analyzer's ignore list
                 texts[k] += rng.choice([u" running", u" libraries jumped", u", Running"])
             if flags.get("highlight") and not flags.get("grams"):
@@ -245,6 +251,25 @@ def _build_case(run, rng, name, field, flags, ndocs, schema, storage):
                         {"kind": "error", "path": "parser.parse(own word)", "err": type(ex).__name__,
                          "msg": str(ex)[:200]}]})
                 run.count(1)
+            # (3b) a quoted pair of neighbouring words of the text, as the user would type it: the parser's phrase
+            # finds the document (where the analyzer is documented to keep phrases working across words it
+            # splits or merges)
+            if flags.get("quoted") == "always" or (flags.get("quoted") and flags.get("positional")):
+                import re as _re
+                pairs = [(a, b) for a, b in _re.findall(r"(?=(?:^| )([A-Za-z0-9][A-Za-z0-9_-]*) ([A-Za-z0-9][A-Za-z0-9_-]*)(?: |$))", text)]
+                for a, b in pairs[:3]:
+                    qtext = u'"%s %s"' % (a, b)
+                    try:
+                        pq = parser.parse(qtext)
+                        if pq is query.NullQuery:
+                            continue
+                        qs.append({"q": null, "text": text, "word": qtext, "obs": [
+                            {"kind": "has", "path": "parser.parse(quoted neighbouring words)", "doc": dn, "ids": ids_of(pq)}]})
+                    except Exception as ex:
+                        qs.append({"q": null, "text": text, "word": qtext, "obs": [
+                            {"kind": "error", "path": "parser.parse(quoted neighbouring words)", "err": type(ex).__name__,
+                             "msg": str(ex)[:200]}]})
+                    run.count(1)
             # (4) phrases of consecutive positions
             if flags["positional"] and getattr(field, "format", None) is not None and field.format.supports("positions"):
                 runs = [i for i in range(len(toks) - 1) if toks[i + 1][1] == toks[i][1] + 1]
